@@ -68,7 +68,7 @@ def commands(ctx, rng, world, count, ncmd, truth=None, np=None, digital_rf=None,
                 o.update(dp=0, mp=0)
         ev = world.run(cmd, o, chs=chs, symbolic=sym, comma=rng.random() < 0.4, float_time=rng.random() < 0.4,
                        rel_end=rng.random() < 0.25, spelling=rng.choice([0, 0, 0, 1, 2, 3]),
-                       via_link=rng.random() < (0.5 if sym else 0.15))
+                       via_link=rng.random() < (0.5 if sym else 0.15), live=cmd == "mv" and rng.random() < 0.6)
         evs.append(ev)
         if cmd == "ln" and not ev["raised"] and ev["new"] and rng.random() < 0.5:
             evs.append(drv.relink(world, ev["d"], sym))
